@@ -44,15 +44,19 @@ def seeded(path):
         cid, fl = first_line(r)
         caught_by = [k for k, v in r.get("results", {}).items() if v["exit"] == 1]
         meta["verified"] = {"patch_applies": r["status"] != "patch-does-not-apply", "tests_pass_with_change": r.get("tests_pass"), "demo_exit_with_change": r.get("demo_exit_with_change"), "demo_exit_without_change": r.get("demo_exit_clean")}
+        if r["status"] == "neutralised":
+            caught_by = []
+            fl = "neutralised by " + meta.get("neutralised_by", "a later fix")[:60] + "...: harmless now, demo passes, check silent (was caught before)"
         meta["caught_by"] = caught_by
         meta["what_i_ran"] = f"tools/run_mutants.py --seeded --only {r['id']}  (fresh worktree of /repo HEAD; pytest; demo.py with and without the change; ./check <id> quick with NSS_REPO=<worktree>)"
         meta["first_witness"] = fl
         json.dump(meta, open(mp, "w"), indent=1)
         needs = (meta.get("needs") or "").replace("|", "/").replace("\n", " ")[:180]
-        out.append(f"| {r['id']} | {r['property']} | {needs} | {r.get('tests_pass')} | {r.get('demo_exit_with_change')} / {r.get('demo_exit_clean')} | {', '.join(caught_by) or 'NOT CAUGHT'} | {fl} |")
-    n = len(res)
+        out.append(f"| {r['id']} | {r['property']} | {needs} | {r.get('tests_pass')} | {r.get('demo_exit_with_change')} / {r.get('demo_exit_clean')} | {', '.join(caught_by) or ('(neutralised)' if r['status'] == 'neutralised' else 'NOT CAUGHT')} | {fl} |")
+    nz = sum(1 for r in res if r["status"] == "neutralised")
+    n = len(res) - nz
     c = sum(1 for r in res if r["status"] == "caught")
-    out += ["", f"{c} of {n} caught."]
+    out += ["", f"{c} of {n} caught." + (f" {nz} further changes were made harmless by a later `fix:` commit in /repo (they removed a rejection that D17 now performs up front); they were caught before that fix, and the check is silent on them now, as it must be." if nz else "")]
     return out
 
 
